@@ -17,6 +17,11 @@ Check(r) ==
                      ELSE PrintT(<<"BADQUERY", ToJson(r.qs[CHOOSE i \in BadQ(r) : TRUE])>>) /\ FALSE
     [] r.ev = "X" -> IF BadX(r) = {} THEN TRUE
                      ELSE PrintT(<<"BADLOOKUP", ToJson(r.xs[CHOOSE i \in BadX(r) : TRUE])>>) /\ FALSE
+    \* a write after the first queries, then (possibly) a call that commits by another road than a query, then the
+    \* contents as a query gives them: an acknowledged entry is there, and nothing is there that was not there before
+    \* (which older entries it displaced is C02's subject; the point lookups of the next event must agree with st2)
+    [] r.ev = "W" -> /\ (r.res = "ok" => r.e \in ToSet(r.st2))
+                     /\ ToSet(r.st2) \subseteq ToSet(r.st) \cup {r.e}
     [] OTHER -> FALSE
 
 Init == l = 1
